@@ -180,6 +180,8 @@ def gen(rng, index, tier):
                 if rng.random() < 0.5:
                     case['configs'].append({'engine': 'native', 'flat_max_words': rng.randrange(plo + 1, max(plo + 2, phi)),
                                             'probe': 'off', 'last_ops': rng.choice([None, 3])})
+                if rng.random() < 0.4:
+                    add_prior_run(rng, case)
                 return case
         return None
     for _ in range(6):
@@ -205,6 +207,26 @@ def gen(rng, index, tier):
 
 # ------------------------------------------------------------------------------------------ (b) screen
 
+def add_prior_run(rng, case):
+    """history: the SAME device object has served an earlier run (usually at another memory width) before it is
+    attached to this one. Only earlier runs that end on a command boundary are used, so what the second stream means
+    is fixed by the documented layout: the device's picture state carries over, the address width is that of the run
+    it is attached to now."""
+    others = [x for x in (16, 32, 64) if x != case['w']]
+    for _ in range(4):
+        prior = screen.build_screen_case(rng, rng.choice(others + others + [case['w']]))
+        if prior is None or prior['screen']['device'] != case['screen']['device']:
+            continue
+        exp, _m, dev = run_screen_model(prior)
+        if exp['outcome'][0] != 'term' or dev.ref.buf or dev.ref.nbits:
+            continue
+        prior.pop('configs', None)
+        prior['screen'].pop('png', None)
+        case['screen'].pop('png', None)
+        case['prior'] = prior
+        return
+
+
 class _ModelScreenDevice:
     """device for the reference machine: RefScreen over the model memory"""
 
@@ -217,8 +239,12 @@ class _ModelScreenDevice:
         self.cmd_start = 0
         self.fired = None
 
-    def attach_memory(self, mem):
-        self.ref = screen.RefScreen(self.w, mem)
+    def attach_memory(self, mem, w=None):
+        if self.ref is None:
+            self.ref = screen.RefScreen(self.w, mem)
+        else:                       # the same device, attached to a later run: picture state stays, width and memory change
+            self.w = w or self.w
+            self.ref.w, self.ref.ww, self.ref.mem = self.w, self.w.bit_length() - 1, mem
 
     def write_bit(self, bit):
         if len(self.bits) % 8 == 0 and not self.ref.buf:
@@ -239,8 +265,19 @@ def run_screen_model(case):
     from flipjump.utils.exceptions import IOReadOnEOF
     w = case['w']
     m = fjmodel.Machine(w, C.case_segments(case), C.case_words(case), None)
-    dev = _ModelScreenDevice(w, case['screen']['device'])
-    dev.attach_memory(fjmodel.ModelMemory(m))
+    prior = case.get('prior')
+    prior_outcome = None
+    if prior:
+        pm = fjmodel.Machine(prior['w'], C.case_segments(prior), C.case_words(prior), None)
+        dev = _ModelScreenDevice(prior['w'], case['screen']['device'])
+        dev.attach_memory(fjmodel.ModelMemory(pm))
+        cause, addr = fjmodel.run(pm, dev, IOReadOnEOF, 60000)      # chosen at generation time to terminate
+        prior_outcome = ('term', cause, addr)
+        dev.bits, dev.frame_at, dev.ref.frames, dev.cmd_start = [], [], [], 0
+        dev.attach_memory(fjmodel.ModelMemory(m), w)
+    else:
+        dev = _ModelScreenDevice(w, case['screen']['device'])
+        dev.attach_memory(fjmodel.ModelMemory(m))
     try:
         cause, addr = fjmodel.run(m, dev, IOReadOnEOF, 60000)
         outcome = ('term', cause, addr)
@@ -249,7 +286,8 @@ def run_screen_model(case):
     except ValueError:
         outcome = ('raise', 'FlipJumpRuntimeException')
     return {'outcome': outcome, 'ops': m.count if outcome[0] == 'term' else None, 'bits': dev.bits,
-            'frames': dev.ref.frames, 'frame_at': dev.frame_at, 'cmd_start': dev.cmd_start}, m
+            'frames': dev.ref.frames, 'frame_at': dev.frame_at, 'cmd_start': dev.cmd_start,
+            'prior_outcome': prior_outcome}, m, dev
 
 
 def run_screen_engine(case, cfg, path):
@@ -261,6 +299,18 @@ def run_screen_engine(case, cfg, path):
         frames_dir = C.scratch_dir() / 'frames'
         shutil.rmtree(frames_dir, ignore_errors=True)
     dev, scr = screen.make_real_screen_device(case['screen']['device'], frames_dir)
+    prior_outcome = None
+    if case.get('prior'):
+        try:
+            st = fjm_run.run(str(path) + '.prior', io_device=dev, last_ops_debugging_list_length=cfg.get('last_ops'),
+                             profile=(cfg['engine'] == 'featured'), flat_max_words=cfg.get('flat_max_words'))
+            prior_outcome = ('term', str(st.termination_cause), st.memory_error_address)
+        except kernel.WatchdogTimeout:
+            raise
+        except BaseException as e:   # noqa
+            prior_outcome = ('raise', type(e).__name__)
+        scr.bits, scr.frames = [], []
+    h0, c0 = len(scr.frame_hashes), scr.frame_count
     try:
         st = fjm_run.run(path, io_device=dev, last_ops_debugging_list_length=cfg.get('last_ops'),
                          profile=(cfg['engine'] == 'featured'), flat_max_words=cfg.get('flat_max_words'))
@@ -271,7 +321,7 @@ def run_screen_engine(case, cfg, path):
     except BaseException as e:   # noqa
         outcome = ('raise', type(e).__name__)
         ops = None
-    hashes_ok = len(scr.frame_hashes) == len(scr.frames) == scr.frame_count
+    hashes_ok = len(scr.frame_hashes) - h0 == len(scr.frames) == scr.frame_count - c0
     if frames_dir is not None and hashes_ok:
         # the headless backend writes one PNG per presented frame: each must decode to palette[pixel index]
         files = sorted(frames_dir.glob('frame_*.png')) if frames_dir.exists() else []
@@ -287,13 +337,16 @@ def run_screen_engine(case, cfg, path):
             if rgb != want:
                 hashes_ok = False
                 break
-    return {'outcome': outcome, 'ops': ops, 'bits': scr.bits, 'frames': scr.frames, 'hashes_ok': hashes_ok}
+    return {'outcome': outcome, 'ops': ops, 'bits': scr.bits, 'frames': scr.frames, 'hashes_ok': hashes_ok,
+            'prior_outcome': prior_outcome}
 
 
 def eval_screen(case):
     path = enginesim.image_path()
     C.write_image(case, path)
-    exp, m = run_screen_model(case)
+    if case.get('prior'):
+        C.write_image(case['prior'], str(path) + '.prior')
+    exp, m, _dev = run_screen_model(case)
     violations = []
     steps = 0
     for cfg in case['configs']:
@@ -309,7 +362,8 @@ def eval_screen(case):
             # from its command byte on - is right too, with the frames that had been presented by then and none more.
             k = sum(1 for at in exp['frame_at'] if at <= len(obs['bits']))
             want = dict(exp, bits=obs['bits'], frames=exp['frames'][:k])
-        for f, name in (('outcome', 'termination'), ('ops', 'op-count'), ('bits', 'device-log'), ('frames', 'frames')):
+        for f, name in (('prior_outcome', 'earlier-run-on-the-same-device'), ('outcome', 'termination'),
+                        ('ops', 'op-count'), ('bits', 'device-log'), ('frames', 'frames')):
             e_f = want[f]
             if e_f != obs[f]:
                 clause = name
@@ -336,7 +390,9 @@ def run(case):
             states.add(f"{enginesim.cfg_class(cfg)}|screen|{sc['device']}|{exp['outcome'][1]}|frames{min(len(exp['frames']), 3)}")
         probes = {'screen_case': 1, 'screen_frames': len(exp['frames']), f"w{case['w']}": 1,
                   'screen_malformed_rejected': 1 if exp['outcome'][0] == 'raise' else 0,
-                  'screen_device_' + sc['device']: 1, 'screen_png_frames_checked': len(exp['frames']) if sc.get('png') else 0}
+                  'screen_device_' + sc['device']: 1, 'screen_png_frames_checked': len(exp['frames']) if sc.get('png') else 0,
+                  'screen_device_reused': 1 if case.get('prior') else 0,
+                  'screen_device_reused_other_width': 1 if case.get('prior') and case['prior']['w'] != case['w'] else 0}
         return {'violations': violations, 'probes': probes, 'faults': {}, 'states': states, 'steps': steps,
                 'nontrivial': len(exp['frames']) > 0 or exp['outcome'][0] == 'raise',
                 'digest': kernel.digest_of([case, [[v['clause'], v['config_name']] for v in violations],
@@ -375,4 +431,4 @@ def signature(case, violation):
 
 
 def adequacy(tier, agg):
-    return B.adequacy(tier, agg, ['device_memory_accesses', 'access_rw', 'access_ww', 'access_rb', 'access_wb', 'screen_case', 'screen_frames', 'screen_malformed_rejected', 'storage_flat', 'storage_hybrid', 'storage_paged'])
+    return B.adequacy(tier, agg, ['device_memory_accesses', 'access_rw', 'access_ww', 'access_rb', 'access_wb', 'screen_case', 'screen_frames', 'screen_malformed_rejected', 'screen_device_reused_other_width', 'storage_flat', 'storage_hybrid', 'storage_paged'])
